@@ -62,7 +62,8 @@ def _ops_for(rng, d, thorough):
         ops.append({'op': 'sample_cond', 'cols': subset, 'kinds': _rand_values(rng, size),
                     'q': [round(rng.random(), 4) for _ in subset],
                     'container': rng.choice(['dict', 'series', 'series']),
-                    'order': rng.choice(['asc', 'desc']), 'n': n,
+                    'order': rng.choice(['asc', 'desc', 'perm', 'perm']),
+                    'perm_seed': rng.randrange(10**6), 'n': n,
                     'reuse': rng.random() < 0.6})
         if rng.random() < 0.3:
             ops.append({'op': 'app_draw', 'k': rng.randint(1, 50)})
@@ -174,6 +175,9 @@ def _container(op, names, values):
     pairs = list(zip(names, values))
     if op['order'] == 'desc':
         pairs = pairs[::-1]
+    elif op['order'] == 'perm':
+        import random as _random
+        _random.Random(op.get('perm_seed', 0)).shuffle(pairs)     # any order, incl. 3-cycles
     if op['container'] == 'dict':
         return dict(pairs)
     return pd.Series([v for _, v in pairs], index=[k for k, _ in pairs])
